@@ -23,10 +23,14 @@ THEOREMS = ["QExPy.C14_derived_nonneg",
 RULE = ("seeded histories (3-14 requests) over a heap of quantities: Measurement(v[, e]), "
         "Measurement([..][, e | [e..]]), MeasurementArray(error= | relative_error=, number or list), "
         "XYDataSet(xerr=, yerr=), array.append / array.insert of numbers, (v, e) pairs and lists of "
-        "pairs, re-wrapping existing arrays with new uncertainties "
+        "pairs, array item assignment (number / (v, e) pair, negative indices), every 8th history a "
+        "deliberate XYDataSet from EXISTING arrays (valid / invalid xerr x valid / invalid yerr, "
+        "different lengths, an existing array next to a plain list), re-wrapping existing arrays "
+        "with new uncertainties "
         "(MeasurementArray(arr, error=) and XYDataSet(xdata=arr, ydata=arr, xerr=, yerr=)), the "
         "error / relative_error / value setters on single, repeated and derived quantities, the "
-        "use_* selectors, arithmetic with quantity / number / (v, e)-pair operands and unary minus, "
+        "use_* selectors, arithmetic with quantity / number / (v, e)-pair operands, unary minus and "
+        "sin / cos / atan, "
         "and the Monte Carlo results of calculated quantities (error_method = Monte Carlo with the "
         "mean-and-std strategy, use_mode_with_confidence at valid and invalid confidences — also on "
         "x*x, 1-x*x, -(x*x) with x = 0 +/- s, whose histogram peaks in the first / last bin — and "
